@@ -241,12 +241,30 @@ def variant_cmd(var, prop, extra):
     return ['/venv/bin/python', '-B'] + list(var.get('flags', [])) + ['-m', 'mc.cli', prop] + extra, env
 
 
+def variant_cwd(var):
+    """the directory the child interpreter is started in (and imports the library in): /verif, or a fresh scratch directory"""
+    if var.get('cwd') == 'scratch':
+        import tempfile
+        return tempfile.mkdtemp(prefix='ssepy-verif-cwd-', dir='/dev/shm' if os.path.isdir('/dev/shm') else None)
+    return VERIF
+
+
+def variant_cwd_done(var, d):
+    if var.get('cwd') == 'scratch':
+        import shutil
+        shutil.rmtree(d, ignore_errors=True)
+
+
 def run_variants(mod, tier, total):
     for var in getattr(mod, 'ENV_VARIANTS', []):
         cmd, env = variant_cmd(var, mod.PROPERTY, [tier, '--variant', var['name']])
         t0 = time.time()
+        cwd = variant_cwd(var)
         try:
-            p = subprocess.run(cmd, capture_output=True, text=True, env=env, timeout=UNIT_TIMEOUT[tier], preexec_fn=_variant_preexec(var), cwd=VERIF)
+            try:
+                p = subprocess.run(cmd, capture_output=True, text=True, env=env, timeout=UNIT_TIMEOUT[tier], preexec_fn=_variant_preexec(var), cwd=cwd)
+            finally:
+                variant_cwd_done(var, cwd)
             line = [l for l in p.stdout.splitlines() if l.startswith('VARIANT-RESULT ')]
             if not line:
                 raise RuntimeError('variant child produced no result (rc=%s): %s' % (p.returncode, (p.stdout + p.stderr)[-600:]))
